@@ -115,6 +115,72 @@ type c20World struct {
 	closed     bool
 	starved    bool
 	broken     bool
+	// slow consumers (long bursts): while `gate` is not nil every callback of a recording kind
+	// waits, after having been recorded, until the gate is closed (= opened for passage) by the
+	// harness; `slow` makes every callback take that long.  `held` counts the callbacks that
+	// have waited at the current gate.
+	gate chan struct{}
+	slow time.Duration
+	held int
+}
+
+// hold is called by a callback (without w.mu) after it has been recorded.
+func c20Hold(g chan struct{}, d time.Duration) {
+	if g != nil {
+		<-g
+	}
+	if d > 0 {
+		time.Sleep(d)
+	}
+}
+
+// holdArgs must be called under w.mu.
+func (w *c20World) holdArgs() (chan struct{}, time.Duration) {
+	if w.gate != nil {
+		w.held++
+	}
+	return w.gate, w.slow
+}
+
+func (w *c20World) shutGate() {
+	w.mu.Lock()
+	w.gate, w.held = make(chan struct{}), 0
+	w.mu.Unlock()
+}
+
+// openGate lets every waiting callback go on; returns how many callbacks have waited.
+func (w *c20World) openGate() int {
+	w.mu.Lock()
+	g, h := w.gate, w.held
+	w.gate = nil
+	w.mu.Unlock()
+	if g != nil {
+		close(g)
+	}
+	return h
+}
+
+// waitDone waits for the pushing goroutine like waitSentinels waits for the sentinels.
+func (w *c20World) waitDone(done chan struct{}, d time.Duration) bool {
+	for i := 0; i < 10; i++ {
+		b0 := atomic.LoadInt64(&c20Beats)
+		select {
+		case <-done:
+			return true
+		case <-time.After(d):
+		}
+		if beats := atomic.LoadInt64(&c20Beats) - b0; beats >= int64(d/(5*time.Millisecond))/3 {
+			return false
+		}
+	}
+	w.starved = true
+	return false
+}
+
+func (w *c20World) setSlow(d time.Duration) {
+	w.mu.Lock()
+	w.slow = d
+	w.mu.Unlock()
 }
 
 var (
@@ -196,7 +262,9 @@ func c20Create(self interface{}, b *c20Base, kind string, spec *c20Spec, prev in
 	}
 	w.record(cb)
 	pan := w.panicNames[name]
+	g, d := w.holdArgs()
 	w.mu.Unlock()
+	c20Hold(g, d)
 	if pan {
 		panic(c20PanicMsg)
 	}
@@ -219,7 +287,9 @@ func c20Close(self interface{}, b *c20Base, kind string) {
 	}
 	w.record(cb)
 	pan := w.panicNames[inst.name]
+	g, d := w.holdArgs()
 	w.mu.Unlock()
+	c20Hold(g, d)
 	if pan {
 		panic(c20PanicMsg)
 	}
@@ -692,11 +762,23 @@ func TestVerifC20Replay(t *testing.T) {
 // burst; callbacks are logged as they happen, `quiet` events (with the observed live set) after
 // each barrier.  VERIF_KINDCHANGE=0 keeps the kind of a live name fixed (a kind may change only
 // through disappear + reappear).
+//
+// VERIF_LONGBURST=1 adds long bursts with slow consumers: three of four bursts have 14..32
+// snapshots, pushed back to back while the watchers' handler goroutines are kept busy
+//
+//	gated   every callback waits at a gate that the harness opens only when all snapshots of the
+//	        burst have been taken by the registry or the pushing has made no progress for a while
+//	        (the registry waits for room in a watcher's event channel);
+//	sleepy  every callback takes 1..3 ms;
+//
+// so that far more events are outstanding than a watcher's channel buffers.  A `gate` event
+// (coverage only) tells how many snapshots were taken while callbacks were waiting.
 func TestVerifC20Trace(t *testing.T) {
 	out := vx.NewWriter(t, "VERIF_OUT")
 	defer out.Close()
 	n, steps := vx.EnvInt("VERIF_N", 5), vx.EnvInt("VERIF_STEPS", 20)
 	kindChange := vx.EnvInt("VERIF_KINDCHANGE", 1) != 0
+	longBursts := vx.EnvInt("VERIF_LONGBURST", 0) != 0
 	names := []string{"a", "b", "c", "d"}[:vx.EnvInt("VERIF_NAMES", 3)]
 	rng := vx.Rand(int64(2000 + vx.EnvInt("VERIF_SALT", 0)))
 	kinds := c20TraceKinds
@@ -719,8 +801,30 @@ func TestVerifC20Trace(t *testing.T) {
 		w.mu.Unlock()
 		snap := map[string]c20Obj{}
 		stalled := false
+		// versions: 1..3, so that a name often comes back with a spec it had before; with long bursts
+		// every new spec of a name gets a version the name never had (dozens of outstanding
+		// obligations with equal specs would make the validation search which Init is which)
+		used := map[string]int{}
+		newVer := func(nm string, v int) int {
+			if longBursts {
+				used[nm]++
+				return used[nm]
+			}
+			return v
+		}
 		for s := 0; s < steps && !stalled; {
 			burst := 1 + rng.Intn(3)
+			mode := "plain"
+			if longBursts {
+				switch rng.Intn(4) {
+				case 0:
+				case 1:
+					mode, burst = "sleepy", 14+rng.Intn(19)
+				default:
+					mode, burst = "gated", 14+rng.Intn(19)
+				}
+			}
+			long := mode != "plain"
 			var pan []string
 			for _, nm := range names {
 				if rng.Intn(5) == 0 {
@@ -728,11 +832,14 @@ func TestVerifC20Trace(t *testing.T) {
 				}
 			}
 			w.setStep(0, pan)
+			// the snapshots of the burst
+			var todo []map[string]c20Obj
+			gsnap := snap
 			for b := 0; b < burst && s < steps; b, s = b+1, s+1 {
 				next := map[string]c20Obj{}
 				cross := false
 				for _, nm := range names {
-					cur, has := snap[nm]
+					cur, has := gsnap[nm]
 					r := rng.Intn(10)
 					switch {
 					case r < 3: // keep
@@ -741,16 +848,23 @@ func TestVerifC20Trace(t *testing.T) {
 						}
 					case r < 5: // absent
 					case r < 8 && has: // new version, same kind
-						next[nm] = c20Obj{K: cur.K, V: 1 + (cur.V % 3)}
+						next[nm] = c20Obj{K: cur.K, V: newVer(nm, 1+(cur.V%3))}
 					default:
 						k := kinds[rng.Intn(len(kinds))]
 						if has && !kindChange {
 							k = cur.K
 						}
 						if has && c20Traffic(k) != c20Traffic(cur.K) {
-							cross = true
+							if long {
+								// (long bursts are not cut short, see below: the kind stays on its side)
+								for c20Traffic(k) != c20Traffic(cur.K) {
+									k = kinds[rng.Intn(len(kinds))]
+								}
+							} else {
+								cross = true
+							}
 						}
-						next[nm] = c20Obj{K: k, V: 1 + rng.Intn(3)}
+						next[nm] = c20Obj{K: k, V: newVer(nm, 1+rng.Intn(3))}
 					}
 				}
 				if cross && b > 0 {
@@ -758,23 +872,75 @@ func TestVerifC20Trace(t *testing.T) {
 					// middle of a burst so that successive steps of one name do not overlap
 					break
 				}
-				sm := vx.M{}
-				for nm, o := range next {
-					sm[nm] = vx.M{"k": o.K, "v": o.V}
-				}
-				for _, nm := range names {
-					if _, ok := sm[nm]; !ok {
-						sm[nm] = vx.M{"k": "none", "v": 0}
-					}
-				}
-				out.Emit(vx.M{"ev": "snap", "snap": sm, "pan": append([]string{}, pan...)})
-				w.push(next)
-				snap = next
+				todo = append(todo, next)
+				gsnap = next
 				if cross {
 					b = burst
 				}
 			}
-			if !w.barrier(snap, c20Wait) || !w.barrier(snap, c20Wait) {
+			var pushed int64
+			pushAll := func() {
+				for _, next := range todo {
+					sm := vx.M{}
+					for nm, o := range next {
+						sm[nm] = vx.M{"k": o.K, "v": o.V}
+					}
+					for _, nm := range names {
+						if _, ok := sm[nm]; !ok {
+							sm[nm] = vx.M{"k": "none", "v": 0}
+						}
+					}
+					out.Emit(vx.M{"ev": "snap", "snap": sm, "pan": append([]string{}, pan...)})
+					w.push(next)
+					atomic.AddInt64(&pushed, 1)
+				}
+			}
+			switch mode {
+			case "gated":
+				w.shutGate()
+				done := make(chan struct{})
+				go func() { pushAll(); close(done) }()
+				// wait until everything is pushed or the pushing stands still (6 heartbeats ~ 30 ms
+				// of this process actually running)
+				stagnated, finished := false, false
+				for !stagnated && !finished {
+					p0, b0 := atomic.LoadInt64(&pushed), atomic.LoadInt64(&c20Beats)
+					for !finished && atomic.LoadInt64(&c20Beats) < b0+6 {
+						select {
+						case <-done:
+							finished = true
+						case <-time.After(5 * time.Millisecond):
+						}
+					}
+					if !finished && atomic.LoadInt64(&pushed) == p0 {
+						stagnated = true
+					}
+				}
+				taken := atomic.LoadInt64(&pushed)
+				held := w.openGate()
+				if !w.waitDone(done, c20Wait) {
+					stalled = true
+					break
+				}
+				out.Emit(vx.M{"ev": "gate", "mode": mode, "n": len(todo), "taken": int(taken), "held": held, "stagnated": stagnated})
+			case "sleepy":
+				w.setSlow(time.Duration(1+rng.Intn(3)) * time.Millisecond)
+				done := make(chan struct{})
+				go func() { pushAll(); close(done) }()
+				if !w.waitDone(done, c20Wait) {
+					stalled = true
+					break
+				}
+				out.Emit(vx.M{"ev": "gate", "mode": mode, "n": len(todo), "taken": len(todo), "held": 0, "stagnated": false})
+			default:
+				pushAll()
+			}
+			if len(todo) > 0 {
+				snap = todo[len(todo)-1]
+			}
+			ok := !stalled && w.barrier(snap, c20Wait)
+			w.setSlow(0)
+			if !ok || !w.barrier(snap, c20Wait) {
 				stalled = true
 				break
 			}
